@@ -474,7 +474,7 @@ def spec_check(ops, g):
                 return {'op_index': i, 'kind': 'count', 'what': 'GetDocumentCount differs', 'got': f, 'want': [25, len(spec)]}
         elif c == 26:
             full = [(id_, spec[id_][0]) for id_ in sorted(spec, key=lambda x: str(x))]
-            fk, fa, fb = o['fk'], o['fa'], o['fb']
+            fk, fa, fb = o['fk'] % 16, o['fa'], o['fb']
 
             def acc(id_, md):
                 if fk == 1:
